@@ -4,8 +4,8 @@ from common import *
 import decl, gen, pktcases, pktprops
 
 PID = 'C13'
-TARGETS = ['Properties/C13.vo', 'Bridge/RefBridge.vo', 'Bridge/InitBridge.vo', 'Bridge/DataBridge.vo']
-KERNELS = ['G8_data', 'G15_init', 'G15b_init_structural', 'G16_ref', 'G16b_optional', 'G16c_prototype']
+TARGETS = ['Properties/C13.vo', 'Model/Heap.vo', 'Bridge/RefBridge.vo', 'Bridge/InitBridge.vo', 'Bridge/DataBridge.vo', 'Bridge/PlumbingBridge.vo']
+KERNELS = ['G8_data', 'G15_init', 'G15b_init_structural', 'G16_ref', 'G16b_optional', 'G16c_prototype', 'G17_builder']
 PROP_FILE = 'Properties/C13.v'
 ASSUMPTIONS = ["partial: values of the model have no identity, so aliasing of mutable sub-objects and real thread interleavings (bytecode-level, "
                "under the GIL) are not exhibited by the model; they are checked on the implementation only (identity graph, write monitor, threads)"]
@@ -14,6 +14,35 @@ ASSUMPTIONS = ["partial: values of the model have no identity, so aliasing of mu
 # (it is compiled and named on first use; the same values are written every time)
 ALLOWED_ATTRS = {'delimiter_to_be_included', 'field_name', '__compile_cached_result', 'struct_code', 'struct_obj', 'pack', 'unpack',
                  'is_bigendian', 'endianness', 'base', '_search_buffer_length', 'position'}
+
+
+def cq_path(path):
+    return "[" + "; ".join((f"SIndex {st}" if isinstance(st, int) else f"SField (FN {int(st[1:])})") for st in path) + "]"
+
+
+def cq_step(st):
+    return f"(SIndex {st})" if isinstance(st, int) else f"(SField (FN {int(st[1:])}))"
+
+
+def model_op(op, values):
+    """a history operation as a Model/Heap.v wop (None: not expressible -> the history is not compared)"""
+    k = lambda slot: int(slot[1:])
+    if op[0] == 'new':
+        return f"WNew {k(op[1])} {decl.cq_value(values[id(op)])}"
+    if op[0] == 'pack':
+        return f"WPack {k(op[1])}"
+    if op[0] == 'reparse':
+        return f"WReparse {k(op[1])} {k(op[2])}"
+    if op[0] == 'set':
+        return f"WSet {k(op[1])} {cq_path(op[2][:-1])} {cq_step(op[2][-1])} (SrcLit {decl.cq_value(values[id(op)])})"
+    if op[0] == 'share':
+        return f"WSet {k(op[1])} {cq_path(op[2][:-1])} {cq_step(op[2][-1])} (SrcObj {k(op[3])} {cq_path(op[4])})"
+    if op[0] == 'append':
+        return f"WAppend {k(op[1])} {cq_path(op[2])} (SrcLit {decl.cq_value(values[id(op)])})"
+    return None
+
+
+VALUES = {}      # id(op) -> the generator value behind its JSON rendering
 
 
 def histories(rng, table, vg, n):
@@ -31,8 +60,10 @@ def histories(rng, table, vg, n):
                 slot = f"p{len(live)}"
                 if rng.random() < 0.5:
                     h.append(['new', slot, decl.cname(c), pktcases.jvalue(v)])
+                    VALUES[id(h[-1])] = v
                 else:
                     h.append(['new', slot, decl.cname(c), pktcases.jvalue(('pkt', c, {}))])
+                    VALUES[id(h[-1])] = ('pkt', c, {})
                 live.append((slot, c, v))
             elif r < 0.45:
                 slot, c, v = rng.choice(live)
@@ -50,6 +81,27 @@ def histories(rng, table, vg, n):
                 if idx:
                     i = rng.choice(idx)
                     h.append(['set', slot, [f"f{i}"], rng.randrange(0, 3)])
+                    VALUES[id(h[-1])] = h[-1][3]
+                else:
+                    h.append(['pack', slot])
+            elif r < 0.88:
+                # the user puts an object of one live packet into another live packet of the same class (allowed sharing),
+                # or grows a list in place
+                slot, c, v = rng.choice(live)
+                mut = [i for i, fd in enumerate(table[c]['fields']) if fd['body'][0] == 'seq' or (fd['body'][0] == 'elem' and fd['body'][1][0] == 'refpkt')]
+                same = [l for l in live if l[1] == c and l[0] != slot]
+                if mut and same and rng.random() < 0.6:
+                    i = rng.choice(mut)
+                    h.append(['share', slot, [f"f{i}"], rng.choice(same)[0], [f"f{i}"]])
+                elif mut:
+                    i = rng.choice(mut)
+                    b = table[c]['fields'][i]['body']
+                    if b[0] == 'seq':
+                        x = ('pkt', b[1][1], {}) if b[1][0] == 'refpkt' else (rng.randrange(3) if (b[1][0] == 'leaf' and b[1][1][0] == 'int') else b'q')
+                        h.append(['append', slot, [f"f{i}"], pktcases.jvalue(x)])
+                        VALUES[id(h[-1])] = x
+                    else:
+                        h.append(['pack', slot])
                 else:
                     h.append(['pack', slot])
             else:
@@ -59,6 +111,7 @@ def histories(rng, table, vg, n):
                 if idx:
                     i = rng.choice(idx)
                     h.append(['set', slot, [f"f{i}"], []])
+                    VALUES[id(h[-1])] = []
                 else:
                     h.append(['pack', slot])
         if h:
@@ -87,6 +140,7 @@ def run(tier, seed, rng):
         # two default-constructed packets of every class, then a mutation deep inside the first one
         for c, pc in table.items():
             h = [['new', 'p0', decl.cname(c), pktcases.jvalue(('pkt', c, {}))], ['new', 'p1', decl.cname(c), pktcases.jvalue(('pkt', c, {}))]]
+            VALUES[id(h[0])] = VALUES[id(h[1])] = ('pkt', c, {})
             for i, fd in enumerate(pc['fields']):
                 b = fd['body']
                 if b[0] == 'seq' and isinstance(b[5], list) and b[5]:
@@ -95,14 +149,17 @@ def run(tier, seed, rng):
                         for j, sfd in enumerate(sub['fields']):
                             if sfd['body'][0] == 'elem' and sfd['body'][1][0] == 'leaf' and sfd['body'][1][1][0] == 'int':
                                 h.append(['set', 'p0', [f"f{i}", 0, f"f{j}"], 1])
+                                VALUES[id(h[-1])] = 1
                                 break
                     else:
                         h.append(['set', 'p0', [f"f{i}", 0], 2])
+                        VALUES[id(h[-1])] = 2
                 elif b[0] == 'elem' and b[1][0] == 'refpkt':
                     sub = table[b[1][1]]
                     for j, sfd in enumerate(sub['fields']):
                         if sfd['body'][0] == 'elem' and sfd['body'][1][0] == 'leaf' and sfd['body'][1][1][0] == 'int':
                             h.append(['set', 'p0', [f"f{i}", f"f{j}"], 1])
+                            VALUES[id(h[-1])] = 1
                             break
             h.append(['pack', 'p1'])
             hs.append(h)
@@ -165,6 +222,75 @@ class Two(Packet):
                 elif r['kind'] == 'pack-impure':
                     dist['pack_impure'] += 1
                     failures.append(dict(kind='oracle', sig='pack-impure', what='two pack() calls returned different bytes or changed a field', classes=src, history=h, detail=r))
+    # ---- Tie B for the aliasing half: the same histories on Model/Heap.v; after every operation the identity structure of the
+    # live packets (which (packet, path) pairs are one object) must be what the model says
+    import sys as _sys
+    host = _sys.byteorder == 'big'
+    hdr = ("From Coq Require Import ZArith List Bool.\n"
+           "From Bisturi Require Import Base.Bytes Kernel.IntCodec Kernel.Align Kernel.DataK Model.Value Model.Decl Model.Unpack Model.Pack Model.Init "
+           "Model.Canon Model.Heap.\nImport ListNotations. Open Scope Z_scope.\n"
+           "Definition flat (l : list (list Z)) : list Z := flat_map (fun x => x ++ [-9]) l.\n"
+           "Definition hist (host : bool) (tbl : list (cid * pclass)) (names : list Z) (ops : list wop) : list Z :=\n"
+           "  let ct := mk_ctab tbl in (if ct_fresh ct then 1 else 0) :: (-9) :: flat (w_history host ct w_empty names ops).\n")
+    files, index = [], []
+    gids = list(range(len(metas)))
+    for part_i, part in enumerate(shard(gids, max(1, len(gids) // NPROC + 1))):
+        text, calls = [hdr], []
+        for gi in part:
+            table, hs = metas[gi]
+            text.append(f"Definition T{gi} : list (cid * pclass) := {decl.cq_table(table)}.\n")
+            for hi, h in enumerate(hs):
+                mops = [model_op(op, VALUES) for op in h]
+                if any(m is None for m in mops):
+                    continue
+                names = sorted({int(op[1][1:]) for op in h if op[0] in ('new', 'parse', 'reparse')})
+                text.append(f"Definition H{gi}_{hi} : list wop := [{'; '.join(mops)}].\n")
+                calls.append(f"hist {'true' if host else 'false'} T{gi} [{'; '.join(map(str, names))}] H{gi}_{hi} ++ [-8]")
+                index.append((gi, hi))
+        text.append("Eval vm_compute in (" + (" ++ ".join(calls) if calls else "(@nil Z)") + ").\n")
+        files.append((f"heap_{part_i}", "".join(text)))
+    outs = coq_eval_files(files)
+    stream = []
+    for name, _ in files:
+        stream += parse_coq_list(outs[name])
+    model_hist, cur = [], []
+    for z in stream:
+        if z == -8:
+            model_hist.append(cur); cur = []
+        else:
+            cur.append(z)
+
+    def split_obs(seq):
+        out, c = [], []
+        for z in seq:
+            if z == -9:
+                out.append(c); c = []
+            else:
+                c.append(z)
+        return out
+
+    def norm(obs):
+        ids = {}
+        return [(ids.setdefault(z, len(ids)) if z >= 0 else z) for z in obs]
+    heap_dis = []
+    dist.update(heap_histories=0, heap_steps=0, heap_not_fresh=0, heap_user_shared=0)
+    for (gi, hi), mseq in zip(index, model_hist):
+        table, hs = metas[gi]
+        obs_m = split_obs(mseq)
+        if obs_m[0] != [1]:
+            dist['heap_not_fresh'] += 1      # a selector hands out packet instances (finding D9): outside the heap model
+            continue
+        obs_m = obs_m[1:]
+        obs_i = flat[gi]['observations'][hi]
+        dist['heap_histories'] += 1
+        dist['heap_user_shared'] += any(op[0] == 'share' for op in hs[hi])
+        for k, (om, oi) in enumerate(zip(obs_m, obs_i)):
+            dist['heap_steps'] += 1
+            if [om[0]] + norm(om[1:]) != [oi[0]] + norm(oi[1:]):
+                heap_dis.append(dict(kind='correspondence', what='Model/Heap.v and bisturi differ on which (packet, path) pairs are the same object after this operation (or on whether it raises)',
+                                     classes="".join(decl.py_class(c, pc) for c, pc in sorted(table.items())), history=hs[hi][:k + 1],
+                                     model=[om[0]] + norm(om[1:]), implementation=[oi[0]] + norm(oi[1:])))
+                break
     pres = results[-1]['groups'][0]
     names = ['D8 regex delimiter remembered on the shared field object', 'D9 a deferred selector returns the same packet object to every parse', None, None]
     for h, rep, nm in zip(probes['histories'], pres['reports'], names):
@@ -184,7 +310,7 @@ class Two(Packet):
                       "attribute written after class creation; 8 threads x rounds of parse+pack on distinct packets vs the sequential result; "
                       "explicit probes for the findings D8 and D9"),
                 samples=[dict(history=metas[0][1][0])] if metas and metas[0][1] else [],
-                distribution=dist, failures=failures, disagreements=[])
+                distribution=dist, failures=failures, disagreements=heap_dis)
 
 
 def replay(f):
